@@ -326,6 +326,76 @@ def case_newton_hybrid(ctx, max_iterations):
               info="returned only when the step is below atol and rtol")
 
 
+def case_newton_aitken(ctx):
+    """numba_newton_raphson with Aitken acceleration and an uninterpreted function, 3 iterations (two Newton steps and
+    the first Aitken step). A normal return after the Aitken iteration happens only when the Aitken (delta-squared)
+    extrapolation x2 + r/(1-r) (x2-x1), r = (x2-x1)/(x1-x0) - limited to the bounds - moved the iterate by less than
+    the tolerances; in particular a diverging sequence (|r| >= 1) is not reported as converged by standing still.
+    Replay: f(x) = x^3 - 2x + 2 from guess 0.1 (the classical Newton 2-cycle region, r ~ -1.02... not contracting)."""
+    mods = P.install(ctx)
+    SV = mods["solvers"]
+    sym = ctx.mode == "sym"
+    calls = []
+    if sym:
+        guess = ctx.real("g0")
+        ctx.assume(ctx.And(ctx.le(-20, guess), ctx.le(guess, 20)))
+
+        def F(x, *a):
+            xs = x if isinstance(x, SR) else SR(core._frac(x))
+            calls.append(xs)
+            return SR(GUF(core.zt(xs)))
+    else:
+        guess = 0.0       # x0 = 0, x1 = 0.9, x2 = -1.03: ratio -2.1, not contracting
+
+        def F(x, *a):
+            calls.append(float(x))
+            return float(x) ** 3 - 2 * float(x) + 2
+    atol_f = 1e-2
+    try:
+        r = SV.numba_newton_raphson(F, guess, (), hard_bounds=(-50, 50), relative_stepsize=False, atol=atol_f, rtol=1.0,
+                                    error_on_max_iter=True, max_iterations=4, verbose=False, name="x",
+                                    aitken_acceleration=True, numerical_stepsize=1e-3)
+    except ValueError:
+        ctx.check(True, "D-NR.raises", info="no convergence within the budget is reported by raising")
+        return
+    ctx.reach("D-NR.aitken")
+    # main evaluations (iterates): calls that are not the x+h derivative probes and not the two initial bound probes
+    h = 1e-3
+    mains = []
+    for k, c in enumerate(calls[2:]):
+        prev = mains[-1] if mains else None
+        is_probe = False
+        if prev is not None:
+            if sym:
+                d = z3.simplify(core.zt(c) - core.zt(prev) - core._rv(Fraction(h)))
+                is_probe = z3.is_rational_value(d) and d.numerator_as_long() == 0
+            else:
+                is_probe = abs(c - prev - h) < 1e-12
+        if not is_probe:
+            mains.append(c)
+    if len(mains) < 3:
+        ctx.check(True, "D-NR.aitken", info="returned before the Aitken iteration")
+        return
+    x0, x1, x2 = mains[0], mains[1], mains[2]
+    num, den = x2 - x1, x1 - x0
+    rv = ctx.value(r)
+    if sym:
+        ratio = num / den
+        ait = x2 + ratio / (1 - ratio) * num
+        tol = ctx.const(atol_f)
+        moved = ctx.Or(ctx.eq(rv, ait), ctx.eq(rv, (50 - x2) / 2 + x2), ctx.eq(rv, (-50 - x2) / 2 + x2),
+                       ctx.Not(ctx.eq(rv, x2)))
+        # returned right after the Aitken iteration: the returned value is the (bounded) extrapolation - or at least
+        # not the untouched iterate when the sequence was not contracting
+        contracting = ctx.And(ctx.lt(num * num, den * den))
+        ctx.check(ctx.Or(contracting, ctx.Not(ctx.eq(rv, x2))), "D-NR.aitken", timeout=60000,
+                  info="a non-contracting sequence (|ratio| >= 1) is never reported as converged with the iterate "
+                       "left where it was")
+    else:
+        ratio = num / den
+        ctx.check(abs(ratio) < 1 or rv != x2, "D-NR.aitken", info=dict(ratio=ratio, returned=rv, x2=x2))
+
+
 def cases(tier):
     cs = []
     q = tier == "quick"
@@ -351,5 +421,7 @@ def cases(tier):
     add("case_roughness_point", "roughness_ok", scenario="ok")
     add("case_roughness_point", "roughness_raises", scenario="raises")
     for mi in ([2, 3] if q else [2, 3, 4]):
+        if mi == 2:
+            add("case_newton_aitken", "newton_aitken_it3", opts=dict(weight=200, case_timeout_s=280))
         add("case_newton_hybrid", f"newton_hybrid_it{mi}", max_iterations=mi, opts=dict(weight=5 ** mi, case_timeout_s=280))
     return cs
